@@ -287,6 +287,14 @@ impl OutputBuffer {
     }
 }
 
+#[cfg(amiquip_verif)]
+impl OutputBuffer {
+    /// Verification hook: an output buffer holding exactly these bytes.
+    pub(crate) fn verif_from_bytes(bytes: Vec<u8>) -> OutputBuffer {
+        OutputBuffer(bytes)
+    }
+}
+
 impl Index<RangeFrom<usize>> for OutputBuffer {
     type Output = [u8];
 
